@@ -277,6 +277,8 @@ reg!(Q8, true, #[derive(Copy)] { (pub u64); }, |p, k| Q8(w(p, k)));
 reg!(P12, true, #[derive(Copy)] { (pub u32, pub u32, pub u32); }, |p, k| { let x = w(p, k); P12(x as u32, (x >> 32) as u32, !(x as u32)) });
 reg!(T24, false, { (pub [u64; 3]); }, |p, k| { let x = w(p, k); T24([x, !x, x.rotate_left(13)]) });
 reg!(X16, true, #[derive(Copy)] { (pub u128); }, |p, k| { let x = w(p, k); X16(((x as u128) << 64) | (!x) as u128) });
+reg!(A32, true, #[derive(Copy)] #[repr(align(32))] { (pub u64); }, |p, k| A32(w(p, k)));
+reg!(A64, true, #[derive(Copy)] #[repr(align(64))] { (pub u8, pub u64); }, |p, k| { let x = w(p, k); A64(x as u8, !x) });
 reg!(Hs, false, { (pub String, pub u8); }, |p, k| Hs(format!("heap-{}", w(p, k)), k as u8));
 
 impl<T: Reg> BT for Val<T> {
